@@ -24,7 +24,7 @@ static std::vector<Cell> build_cells(bool thorough) {
   std::vector<Cfg> cfgs;
   if (!thorough) cfgs = {{4, 300, NMULTS - 1}, {6, 300, NMULTS - 1}, {9, 200, NMULTS - 1}, {11, 200, NMULTS - 3}};
   else cfgs = {{4, 3000, NMULTS - 1}, {5, 3000, NMULTS - 1}, {6, 3000, NMULTS - 1}, {7, 3000, NMULTS - 1}, {8, 3000, NMULTS - 1}, {9, 3000, NMULTS - 1},
-               {10, 3000, NMULTS - 1}, {11, 2000, NMULTS - 1}, {12, 1500, NMULTS - 1}, {13, 1000, NMULTS - 2}, {14, 600, NMULTS - 3}};
+               {10, 2000, NMULTS - 1}, {11, 1500, NMULTS - 1}, {12, 1000, NMULTS - 1}, {13, 800, NMULTS - 2}, {14, 600, NMULTS - 3}};
   for (int f = 0; f < F_N; ++f)
     for (auto& c : cfgs)
       for (int mi = 0; mi <= c.max_mi; ++mi) {
